@@ -28,7 +28,9 @@ func cmdSeq(args []string) int {
 	views := fs.Bool("views", true, "sample all views after every call")
 	maxStates := fs.Int("maxstates", 6, "rnd: max user states")
 	vetoP := fs.Float64("vetop", 0.5, "probability a call carries vetoes")
+	nestP := fs.Float64("nestp", 0.0, "probability a call carries handler-issued mutations")
 	fs.Parse(args)
+	gen.NestP = *nestP
 
 	cases := make([]*gen.Case, 0, *n)
 	r := rand.New(rand.NewSource(*seed))
